@@ -17,11 +17,6 @@ inductive SVal where
   | allotment (a : List Rat)
   deriving Repr, Inhabited
 
-inductive Instr where
-  | apush (addr : Nat)
-  | op (code : Nat)
-  deriving Repr, DecidableEq, Inhabited
-
 /-- Decoding: OP_APUSH is followed by a little-endian uint16. -/
 def decode : List Nat → Except Err (List Instr)
   | [] => .ok []
@@ -39,25 +34,26 @@ def decode : List Nat → Except Err (List Instr)
       | .error e => .error e
 termination_by l => l.length
 
+/-- The value of one resource, given the values of the earlier ones. -/
+def resVal (env : Env) (acc : List Value) : Res → Except Err Value
+  | .const (.account s) => .ok (.account s)
+  | .const (.asset s) => .ok (.asset s)
+  | .const (.number n) => .ok (.number n)
+  | .const (.str s) => .ok (.str s)
+  | .const (.portion p) => .ok (.portion p)
+  | .var _ n => match env.lookup n with | some v => .ok v | none => .error (.fault "unresolved variable")
+  | .varMeta _ n _ _ => match env.lookup n with | some v => .ok v | none => .error (.fault "unresolved variable")
+  | .varBalance n _ _ => match env.lookup n with | some v => .ok v | none => .error (.fault "unresolved variable")
+  | .mon a amt =>
+    match acc[a]? with
+    | some (.asset s) => .ok (.monetary s (some amt))
+    | _ => .error (.fault "monetary resource: asset expected")
+
 /-- `ResolveResources` at the byte-code level, given the resolved variables. -/
 def resolveRes (env : Env) : List Res → List Value → Except Err (List Value)
   | [], acc => .ok acc
   | r :: rs, acc =>
-    let v : Except Err Value :=
-      match r with
-      | .const (.account s) => .ok (.account s)
-      | .const (.asset s) => .ok (.asset s)
-      | .const (.number n) => .ok (.number n)
-      | .const (.str s) => .ok (.str s)
-      | .const (.portion p) => .ok (.portion p)
-      | .var _ n => match env.lookup n with | some v => .ok v | none => .error (.fault "unresolved variable")
-      | .varMeta _ n _ _ => match env.lookup n with | some v => .ok v | none => .error (.fault "unresolved variable")
-      | .varBalance n _ _ => match env.lookup n with | some v => .ok v | none => .error (.fault "unresolved variable")
-      | .mon a amt =>
-        match acc[a]? with
-        | some (.asset s) => .ok (.monetary s (some amt))
-        | _ => .error (.fault "monetary resource: asset expected")
-    match v with
+    match resVal env acc r with
     | .error e => .error e
     | .ok x => resolveRes env rs (acc ++ [x])
 
@@ -332,6 +328,14 @@ def step (resv : List Value) (i : Instr) (stk : Stack) (st : State) : Except Err
         | .ok _ => .error (.panic "save: invalid value type")
     else .error (.run "exec" "invalid-script")
 
+/-- A code segment: the instructions one after the other. -/
+def runSeg (resv : List Value) : List Instr → Stack → State → Except Err (Stack × State)
+  | [], stk, st => .ok (stk, st)
+  | i :: is, stk, st =>
+    match step resv i stk st with
+    | .error e => .error e
+    | .ok (stk', st') => runSeg resv is stk' st'
+
 /-- `Execute`: the loop; at the end the stack must be empty (the real VM panics). -/
 def execInstrs (resv : List Value) : List Instr → Stack → State → Except Err State
   | [], stk, st => if stk.isEmpty then .ok st else .error (.panic "stack not empty after execution")
@@ -340,15 +344,14 @@ def execInstrs (resv : List Value) : List Instr → Stack → State → Except E
     | .error e => .error e
     | .ok (stk', st') => execInstrs resv is stk' st'
 
-/-- `exec`: run a compiled program from the resolved variables and initial tracked
-    balances. -/
+/-- `exec`: run a compiled program (its instruction list `code`; `instrs` is the byte
+    encoding, `decode p.instrs = code` is checked on every generated program) from the
+    resolved variables and initial tracked balances. -/
 def exec (p : Program) (env : Env) (bal : Balances) : Except Err State :=
   match resolveRes env p.res [] with
   | .error e => .error e
   | .ok resv =>
-    match decode p.instrs with
-    | .error e => .error e
-    | .ok is => execInstrs resv is [] (initState bal)
+    execInstrs resv p.code [] (initState bal)
 
 /-- The byte-code pipeline: compile, prepare (same as `sem`), exec. -/
 def semBytecode (cfg : Cfg) (s : Script) (inp : Input) : Except Err Result :=
